@@ -165,54 +165,145 @@ def make_plugin(case):
     return p
 
 
-class _Timeout(BaseException):
+class _Timeout(Exception):
     pass
 
 
+BASE_LIMIT = 10.0        # seconds of USER CPU of this process (ITIMER_VIRTUAL) for one run of Plugin.iter; a
+                         # normal run needs about a millisecond.  Not wall-clock and not system time, so neither
+                         # a loaded machine nor fork / paging overhead can use it up.
+CONFIRM_FACTOR = 10      # a timeout is re-tried in a fresh process with CONFIRM_FACTOR x BASE_LIMIT, twice
+WALL_BACKSTOP = 3 * 3600  # seconds; a confirmation child that is still not done is given up as inconclusive
+
+_ARMED = False
+_HANDLER_SET = False
+
+
 def _on_alarm(signum, frame):
-    raise _Timeout()
+    global _ARMED
+    if _ARMED:               # one shot; a late or stray signal outside a timed region is ignored
+        _ARMED = False
+        raise _Timeout()
 
 
-def _run_once(case, enc, cpu_limit):
+def _arm(limit):
     import signal
     import threading
-    p = make_plugin(case)
-    iters = {"d%d" % i: iter([real_chunk(c, enc) for c in cs]) for i, cs in enumerate(case["deps"])}
-    limit = sum(len(cs) for cs in case["deps"]) + 5
+    global _ARMED, _HANDLER_SET
+    if threading.current_thread() is not threading.main_thread():
+        return
+    if not _HANDLER_SET:
+        signal.signal(signal.SIGVTALRM, _on_alarm)      # installed once per process, never removed
+        _HANDLER_SET = True
+    _ARMED = True
+    signal.setitimer(signal.ITIMER_VIRTUAL, limit)
+
+
+def _disarm():
+    import signal
+    import threading
+    global _ARMED
+    _ARMED = False
+    if threading.current_thread() is threading.main_thread():
+        signal.setitimer(signal.ITIMER_VIRTUAL, 0)
+
+
+def _run_timed(p, iters, limit, max_results):
     out = None
     n = 0
-    guard = threading.current_thread() is threading.main_thread()
-    if guard:
-        # CPU time of this process (user + system), not wall-clock: independent of machine load
-        old = signal.signal(signal.SIGPROF, _on_alarm)
-        signal.setitimer(signal.ITIMER_PROF, cpu_limit)
     try:
-        try:
-            for _res in p.iter(iters):
-                n += 1
-                if n > limit:
-                    out = "RUNAWAY"
-                    break
-        except _Timeout:
-            out = "RUNAWAY"
-        except Exception as e:  # noqa
-            out = err_code(e)
+        _arm(limit)
+        for _res in p.iter(iters):
+            n += 1
+            if n > max_results:
+                out = "RUNAWAY"
+                break
+    except _Timeout:
+        out = "TIMEOUT"
+    except Exception as e:  # noqa
+        out = err_code(e)
     finally:
-        if guard:
-            signal.setitimer(signal.ITIMER_PROF, 0)
-            signal.signal(signal.SIGPROF, old)
-    return {"calls": p.calls, "out": out}
+        _disarm()
+    return out
 
 
-def real_run(case, enc="endtime", timeout=4.0):
-    """-> {"calls": [(start, end, [ids per dep], [distinct (start,end) of the merged inputs])], "out": None|code}
-    A run that yields more results than there are input chunks, or burns more than `timeout` seconds of CPU
-    (a normal run takes about a millisecond of CPU), is reported as RUNAWAY -- after a second run with twice
-    the budget confirmed it."""
-    r = _run_once(case, enc, timeout)
-    if r["out"] == "RUNAWAY":
-        r = _run_once(case, enc, 2 * timeout)
-    return r
+def real_run(case, enc="endtime", limit=None):
+    """One run of the real Plugin.iter on `case`.
+    -> {"calls": [(start, end, [ids per dep], [distinct (start,end) of the merged inputs])], "out": o}
+    o = None (normal end) | error code | "RUNAWAY" (more results than input chunks: deterministic) |
+    "TIMEOUT" (more than `limit` seconds of user CPU: only a suspicion, see confirm_timeout)."""
+    p = make_plugin(case)
+    iters = {"d%d" % i: iter([real_chunk(c, enc) for c in cs]) for i, cs in enumerate(case["deps"])}
+    max_results = sum(len(cs) for cs in case["deps"]) + 5
+    import resource
+    import time
+    w0, ru0 = time.time(), resource.getrusage(resource.RUSAGE_SELF)
+    try:
+        out = _run_timed(p, iters, BASE_LIMIT if limit is None else limit, max_results)
+    except _Timeout:          # the signal arrived while the timed region was being left
+        out = "TIMEOUT"
+    finally:
+        _disarm()
+    res = {"calls": p.calls, "out": out}
+    if out == "TIMEOUT":
+        ru1 = resource.getrusage(resource.RUSAGE_SELF)
+        res["diag"] = "pid %d: wall %.1fs user %.1fs sys %.1fs (limit %.1fs user)" % (
+            os.getpid(), time.time() - w0, ru1.ru_utime - ru0.ru_utime, ru1.ru_stime - ru0.ru_stime,
+            BASE_LIMIT if limit is None else limit)
+    return res
+
+
+def _confirm_child(conn, case, enc, limit):
+    try:
+        warnings.simplefilter("ignore")
+        r = real_run(case, enc, limit)
+        conn.send(r)
+    except BaseException as e:  # noqa
+        try:
+            conn.send({"calls": [], "out": "HARNESS-ERROR %s: %s" % (type(e).__name__, str(e)[:200])})
+        except Exception:  # noqa
+            pass
+    finally:
+        conn.close()
+
+
+def run_in_fresh_process(case, enc, limit):
+    """run one case alone in a freshly forked process; -> result dict, or None if the child gave no answer"""
+    import multiprocessing as mp
+    ctxm = mp.get_context("fork")
+    try:
+        recv, send = ctxm.Pipe(duplex=False)
+        proc = ctxm.Process(target=_confirm_child, args=(send, case, enc, limit))
+        proc.start()
+        send.close()
+        r = None
+        if recv.poll(WALL_BACKSTOP):
+            try:
+                r = recv.recv()
+            except (EOFError, OSError):
+                r = None
+        if proc.is_alive() and r is None:
+            proc.kill()
+        proc.join(60)
+        recv.close()
+        return r
+    except Exception:  # noqa  (fork failed, pipe failed, ...)
+        return None
+
+
+def confirm_timeout(case, enc="endtime"):
+    """A run hit BASE_LIMIT.  Re-try in a fresh process with CONFIRM_FACTOR times the limit; if that times out
+    too, once more, alone.  -> ("result", r) the run finished after all (the machine was slow) |
+    ("hang", r) it reproducibly does not finish | ("inconclusive", None) no answer could be obtained."""
+    last = None
+    for _attempt in range(2):
+        r = run_in_fresh_process(case, enc, CONFIRM_FACTOR * BASE_LIMIT)
+        if r is None or str(r["out"]).startswith("HARNESS-ERROR"):
+            return ("inconclusive", None)
+        if r["out"] != "TIMEOUT":
+            return ("result", r)
+        last = r
+    return ("hang", last)
 
 
 def warm_up():
@@ -230,66 +321,108 @@ def fmt_real(r):
     return calls + (" # ok" if r["out"] is None else " # err %s" % r["out"])
 
 
-MAX_RUNAWAYS = 8
-_RUNAWAYS = None          # shared counter (multiprocessing.Value), created before the workers are forked
+MAX_SUSPECTS = 6          # timeouts per batch after which the rest of the batch is postponed
+_SUSPECTS = None          # shared counter (multiprocessing.Value), created before the workers are forked
 
 
 def _worker(batch):
+    """run a slice of cases; never raises"""
     warnings.simplefilter("ignore")
     out = []
     local = 0
     for idx, case in batch:
-        seen = _RUNAWAYS.value if _RUNAWAYS is not None else local
-        if seen >= MAX_RUNAWAYS:
-            # circuit breaker: an implementation that hangs on many inputs is reported from the first few
-            out.append(("SKIPPED", {"calls": [], "out": "SKIPPED"}))
-            continue
-        r = real_run(case, "endtime" if idx % 2 == 0 else "length")
-        if r["out"] == "RUNAWAY":
-            local += 1
-            if _RUNAWAYS is not None:
-                with _RUNAWAYS.get_lock():
-                    _RUNAWAYS.value += 1
-        out.append((fmt_real(r), r))
+        try:
+            seen = _SUSPECTS.value if _SUSPECTS is not None else local
+            if seen >= MAX_SUSPECTS:
+                # circuit breaker: many timeouts mean a hanging implementation or a crawling machine; the
+                # suspects are examined first, the postponed cases are run afterwards
+                out.append(("SKIPPED", {"calls": [], "out": "SKIPPED"}))
+                continue
+            r = real_run(case, "endtime" if idx % 2 == 0 else "length")
+            if r["out"] == "TIMEOUT":
+                local += 1
+                if _SUSPECTS is not None:
+                    with _SUSPECTS.get_lock():
+                        _SUSPECTS.value += 1
+            out.append((fmt_real(r), r))
+        except Exception as e:  # noqa
+            r = {"calls": [], "out": "HARNESS-ERROR %s: %s" % (type(e).__name__, str(e)[:200])}
+            out.append((fmt_real(r), r))
     return out
 
 
-def run_real_parallel(cases):
-    """run the implementation on all cases (forked workers; results in order)"""
-    global _RUNAWAYS
-    idx_cases = list(enumerate(cases))
-    if len(cases) < 12000:
-        # in-process: about a millisecond per case; process hand-offs cost more than that on a busy machine
-        _RUNAWAYS = None
-        return _worker(idx_cases)
-    import multiprocessing as mp
-    _RUNAWAYS = mp.get_context("fork").Value("i", 0)
-    nproc = min(16, os.cpu_count() or 4)
-    size = len(cases) // nproc + 1          # one slice per worker: as few hand-offs as possible
-    batches = [idx_cases[i:i + size] for i in range(0, len(idx_cases), size)]
-    # ProcessPoolExecutor (unlike multiprocessing.Pool) notices a worker that was killed from outside; the
-    # batches that did not come back are then run again, at last in this process
-    from concurrent.futures import ProcessPoolExecutor
-    from concurrent.futures.process import BrokenProcessPool
-    outs = [None] * len(batches)
-    for attempt in range(3):
-        todo = [i for i, o in enumerate(outs) if o is None]
-        if not todo:
-            break
+def _noop():
+    return 0
+
+
+class Runner:
+    """runs the implementation on batches of cases: in-process for small batches, otherwise on a pool of
+    workers that is forked ONCE, while this process is still small (forking a process that holds hundreds of
+    thousands of generated cases costs minutes of system time on a busy machine)"""
+
+    def __init__(self):
+        import multiprocessing as mp
+        global _SUSPECTS
+        self.nproc = min(16, os.cpu_count() or 4)
+        self.mpctx = mp.get_context("fork")
+        _SUSPECTS = self.mpctx.Value("i", 0)
+        self.ex = None
+        self._start()
+
+    def _start(self):
+        from concurrent.futures import ProcessPoolExecutor
+        import gc
         try:
-            with ProcessPoolExecutor(nproc, mp_context=mp.get_context("fork")) as ex:
-                futs = {i: ex.submit(_worker, batches[i]) for i in todo}
+            # keep the children's garbage collector away from the inherited heap (every gc header it
+            # writes to is a copied page)
+            gc.collect()
+            gc.freeze()
+            self.ex = ProcessPoolExecutor(self.nproc, mp_context=self.mpctx)
+            self.ex.submit(_noop).result()        # with the fork context all workers are started now
+        except Exception:  # noqa
+            self.ex = None
+        finally:
+            gc.unfreeze()
+
+    def close(self):
+        if self.ex is not None:
+            try:
+                self.ex.shutdown(wait=False, cancel_futures=True)
+            except Exception:  # noqa
+                pass
+            self.ex = None
+
+    def run(self, cases):
+        """results in order; a slice whose worker died (killed from outside, out of memory) is run again, at
+        last in this process"""
+        idx_cases = list(enumerate(cases))
+        if _SUSPECTS is not None:
+            _SUSPECTS.value = 0
+        if len(cases) < 12000 or self.ex is None:
+            return _worker(idx_cases)
+        size = len(cases) // self.nproc + 1          # one slice per worker: as few hand-offs as possible
+        batches = [idx_cases[i:i + size] for i in range(0, len(idx_cases), size)]
+        outs = [None] * len(batches)
+        for _attempt in range(2):
+            todo = [i for i, o in enumerate(outs) if o is None]
+            if not todo or self.ex is None:
+                break
+            try:
+                futs = {i: self.ex.submit(_worker, batches[i]) for i in todo}
                 for i, f in futs.items():
                     try:
                         outs[i] = f.result()
-                    except BrokenProcessPool:
+                    except Exception:  # noqa  (BrokenProcessPool, ...)
                         pass
-        except BrokenProcessPool:
-            pass
-    for i, o in enumerate(outs):
-        if o is None:
-            outs[i] = _worker(batches[i])
-    return [x for o in outs for x in o]
+            except Exception:  # noqa
+                pass
+            if any(o is None for o in outs):
+                self.close()
+                self._start()
+        for i, o in enumerate(outs):
+            if o is None:
+                outs[i] = _worker(batches[i])
+        return [x for o in outs for x in o]
 
 
 # ------------------------------------------------------------------------------------------
@@ -368,7 +501,9 @@ def predicates(case, r, max_passes):
     byid = [{q[2]: q for q in rows} for rows in R]
     n = len(R)
     if out == "RUNAWAY":
-        return "iter did not terminate (more results than input chunks, or more than 4 s of CPU where a normal run needs about 1 ms; confirmed with 8 s)"
+        return "iter does not terminate (more results than input chunks, or reproducibly no end within the CPU limit)"
+    if out in ("TIMEOUT", "SKIPPED") or str(out).startswith("HARNESS-ERROR"):
+        return None          # no verdict on this run (handled by the caller: confirmation / inconclusive)
     wf_inputs = all(well_formed_chunk(c) for cs in case["deps"] for c in cs)
     # 1. alignment: one identical interval for all inputs of a call, rows inside it
     for (s, e, idl, rngs) in calls:
@@ -821,11 +956,13 @@ class Sink:
     FIRST_BATCH = 4000      # a small first batch: a broken implementation is reported quickly
     SEARCH_AFTER_DISAGREE = 60000   # quick tier: how long the search for a failing input goes on after the
                                     # first model/implementation disagreement (thorough: to the end)
+    MAX_CONFIRMATIONS = 4   # timeouts examined by the full confirmation procedure per run
 
-    def __init__(self, ctx, mp):
-        self.ctx, self.mp = ctx, mp
+    def __init__(self, ctx, mp, runner, max_cases=None):
+        self.ctx, self.mp, self.runner, self.max_cases = ctx, mp, runner, max_cases
         self.buf = []
         self.total = 0
+        self.generated = 0
         self.dist = {}
         self.nontriv = set()
         self.bad = 0                    # concrete failing inputs found
@@ -833,97 +970,179 @@ class Sink:
         self.n_disagree = 0
         self.samples = []
         self.cross = []
+        self.timing = []
+        self.timeouts = {"first_stage": 0, "finished_on_retry": 0, "confirmed_non_termination": 0,
+                         "inconclusive": 0, "confirmations_run": 0}
+        self.harness_errors = 0
+        self.first_harness_error = None
+        self.timeout_diags = []
+        self.last_diag = None
 
     def append(self, case):
         self.buf.append(case)
+        self.generated += 1
         if len(self.buf) >= (self.FIRST_BATCH if self.total == 0 else self.BATCH):
             self.flush()
-            if self.bad > 6:
-                raise EnoughViolations()
-            if self.first_disagree_at is not None and not self.ctx.thorough and \
-                    self.total - self.first_disagree_at > self.SEARCH_AFTER_DISAGREE:
-                raise EnoughViolations()
+        if self.max_cases is not None and self.generated >= self.max_cases:
+            self.flush()
+            raise EnoughViolations("case cap C08_MAX_CASES=%d reached" % self.max_cases)
+
+    def _check_stop(self):
+        if self.bad > 6:
+            raise EnoughViolations("more than 6 failing inputs recorded")
+        if self.timeouts["confirmed_non_termination"] > 0:
+            raise EnoughViolations("the implementation reproducibly does not terminate; further cases not run")
+        if self.first_disagree_at is not None and not self.ctx.thorough and \
+                self.total - self.first_disagree_at > self.SEARCH_AFTER_DISAGREE:
+            raise EnoughViolations("quick-tier search budget after a model/implementation disagreement used up")
+
+    # ---- one result -------------------------------------------------------------------------
+    def _judge(self, case, mo, rs, r):
+        ctx, mp = self.ctx, self.mp
+        dist = self.dist
+        tag = case["tag"].rstrip("0123456789")
+        for k in ("%s/%s" % (tag, "ok" if r["out"] is None else ERRNAME.get(r["out"], "err %s" % r["out"])),
+                  "calls=%d" % min(len(r["calls"]), 6),
+                  "deps=%d kinds=%d" % (len(case["kinds"]), len(set(case["kinds"])))):
+            dist[k] = dist.get(k, 0) + 1
+        if nontrivial(case, r):
+            self.nontriv.add(hash(lib.canon(show_case(case))))
+        self.total += 1
+
+        def fails(c):
+            return predicates(c, real_run(c), mp) is not None
+        reason = predicates(case, r, mp)
+        if reason:
+            if self.bad <= 6:
+                small = shrink(case, fails)
+                r2 = real_run(small)
+                if predicates(small, r2, mp) is None:      # never report a case that does not fail on re-run
+                    small, r2 = case, r
+                ctx.violation("iter", "Plugin.iter violates C08: %s (implementation: %s)"
+                              % (predicates(small, r2, mp), fmt_real(r2)),
+                              {"input": show_case(small), "impl": fmt_real(r2), "unit": "iter",
+                               "original": show_case(case)})
+            self.bad += 1
+        elif rs != mo:
+            self.n_disagree += 1
+            if self.first_disagree_at is None:
+                self.first_disagree_at = self.total
+            if self.n_disagree <= 3 and self.bad <= 6:
+                def model_outs(cands):
+                    return lib.run_model("C08", [enc_case(c) for c in cands])
+
+                def disagree(c, mo_c):
+                    rc = real_run(c)
+                    return rc["out"] != "TIMEOUT" and fmt_real(rc) != mo_c
+                small = shrink(case, disagree, prepare=model_outs)
+                found = None
+                for nb in neighbourhood(small):      # search for a failing input around the disagreement
+                    rr = real_run(nb)
+                    why = predicates(nb, rr, mp)
+                    if why:
+                        found = (nb, rr, why)
+                        break
+                if found:
+                    nb, rr, why = found
+                    nb2 = shrink(nb, fails)
+                    rr2 = real_run(nb2)
+                    if predicates(nb2, rr2, mp) is not None:
+                        nb, rr = nb2, rr2
+                    ctx.violation("iter", "Plugin.iter violates C08: %s (implementation: %s)"
+                                  % (predicates(nb, rr, mp), fmt_real(rr)),
+                                  {"input": show_case(nb), "impl": fmt_real(rr), "unit": "iter"})
+                    self.bad += 1
+                else:
+                    ctx.violation("iter", "model/implementation disagree on Plugin.iter (impl `%s`, model `%s`); "
+                                  "the property predicates hold on this input and its neighbourhood"
+                                  % (fmt_real(real_run(small)), lib.run_model("C08", [enc_case(small)])[0]),
+                                  {"input": "corr:C08/iter", "case": show_case(small), "unit": "iter"},
+                                  no_failing_input=True)
+
+    # ---- a run that hit the CPU limit: only a suspicion until it reproduces ------------------------
+    def _suspect(self, case, mo, enc):
+        ctx = self.ctx
+        t = self.timeouts
+        t["first_stage"] += 1
+        if len(self.timeout_diags) < 8:
+            self.timeout_diags.append(self.last_diag)
+        if t["confirmations_run"] >= self.MAX_CONFIRMATIONS or t["confirmed_non_termination"] > 0:
+            t["inconclusive"] += 1           # not examined further: never an alarm by itself
+            return
+        t["confirmations_run"] += 1
+        verdict, r = confirm_timeout(case, enc)
+        if verdict == "result":
+            t["finished_on_retry"] += 1          # the machine was slow; the completed run is judged as usual
+            self._judge(case, mo, fmt_real(r), r)
+        elif verdict == "inconclusive":
+            t["inconclusive"] += 1
+        else:
+            # reproducibly no end: BASE_LIMIT in a worker, then twice CONFIRM_FACTOR x BASE_LIMIT of user CPU
+            # alone in a fresh process.  Minimise (a candidate counts if it also hits the base limit) and
+            # confirm the minimised input the same way before naming it.
+            t["confirmed_non_termination"] += 1
+
+            def hangs(c):
+                return real_run(c)["out"] in ("TIMEOUT", "RUNAWAY")
+            small = shrink(case, hangs)
+            if small is not case:
+                v2, _r2 = confirm_timeout(small, "endtime")
+                if v2 != "hang":
+                    small = case
+            ctx.violation("iter", "Plugin.iter does not terminate on this input (no end within %.0f s of user CPU "
+                          "in a fresh process, twice; a normal run needs about 1 ms); calls made before: %s"
+                          % (CONFIRM_FACTOR * BASE_LIMIT, fmt_real(r)),
+                          {"input": show_case(small), "impl": "no termination", "unit": "iter",
+                           "original": show_case(case)})
+            self.bad += 1
 
     def flush(self):
         cases, self.buf = self.buf, []
         if not cases:
             return
-        ctx, mp = self.ctx, self.mp
         import time
         t0 = time.time()
         lines = [enc_case(c) for c in cases]
         mout = lib.run_model_parallel("C08", lines)
         t1 = time.time()
-        rout = run_real_parallel(cases)
+        rout = self.runner.run(cases)
         t2 = time.time()
-        self.timing = getattr(self, "timing", [])
         self.timing.append("batch %d: model %.1fs impl %.1fs" % (len(cases), t1 - t0, t2 - t1))
-        dist = self.dist
-        n_skipped = 0
-        for case, mo, (rs, r) in zip(cases, mout, rout):
-            if r["out"] == "SKIPPED":
-                n_skipped += 1
-                continue
-            tag = case["tag"].rstrip("0123456789")
-            for k in ("%s/%s" % (tag, "ok" if r["out"] is None else ERRNAME.get(r["out"], "err %s" % r["out"])),
-                      "calls=%d" % min(len(r["calls"]), 6),
-                      "deps=%d kinds=%d" % (len(case["kinds"]), len(set(case["kinds"])))):
-                dist[k] = dist.get(k, 0) + 1
-            if nontrivial(case, r):
-                self.nontriv.add(hash(lib.canon(show_case(case))))
-            reason = predicates(case, r, mp)
-            if reason:
-                if self.bad <= 6:
-                    small = shrink(case, lambda c: predicates(c, real_run(c, timeout=2.0), mp) is not None)
-                    r2 = real_run(small, timeout=2.0)
-                    if predicates(small, r2, mp) is None:      # never report a case that does not fail on re-run
-                        small, r2 = case, r
-                    ctx.violation("iter", "Plugin.iter violates C08: %s (implementation: %s)"
-                                  % (predicates(small, r2, mp), fmt_real(r2)),
-                                  {"input": show_case(small), "impl": fmt_real(r2), "unit": "iter",
-                                   "original": show_case(case)})
-                self.bad += 1
-            elif rs != mo:
-                self.n_disagree += 1
-                if self.first_disagree_at is None:
-                    self.first_disagree_at = self.total
-                if self.n_disagree <= 3 and self.bad <= 6:
-                    def model_outs(cands):
-                        return lib.run_model("C08", [enc_case(c) for c in cands])
-
-                    def disagree(c, mo_c):
-                        return fmt_real(real_run(c, timeout=2.0)) != mo_c
-                    small = shrink(case, disagree, prepare=model_outs)
-                    found = None
-                    for nb in neighbourhood(small):      # search for a failing input around the disagreement
-                        rr = real_run(nb, timeout=2.0)
-                        why = predicates(nb, rr, mp)
-                        if why:
-                            found = (nb, rr, why)
-                            break
-                    if found:
-                        nb, rr, why = found
-                        nb = shrink(nb, lambda c: predicates(c, real_run(c, timeout=2.0), mp) is not None)
-                        rr = real_run(nb, timeout=2.0)
-                        ctx.violation("iter", "Plugin.iter violates C08: %s (implementation: %s)"
-                                      % (predicates(nb, rr, mp), fmt_real(rr)),
-                                      {"input": show_case(nb), "impl": fmt_real(rr), "unit": "iter"})
-                        self.bad += 1
-                    else:
-                        ctx.violation("iter", "model/implementation disagree on Plugin.iter (impl `%s`, model `%s`); "
-                                      "the property predicates hold on this input and its neighbourhood"
-                                      % (fmt_real(real_run(small, timeout=2.0)), lib.run_model("C08", [enc_case(small)])[0]),
-                                      {"input": "corr:C08/iter", "case": show_case(small), "unit": "iter"},
-                                      no_failing_input=True)
+        postponed = []
+        for idx, (case, mo, (rs, r)) in enumerate(zip(cases, mout, rout)):
+            out = r["out"]
+            if out == "SKIPPED":
+                postponed.append((idx, case, mo))
+            elif out == "TIMEOUT":
+                self.last_diag = r.get("diag")
+                self._suspect(case, mo, "endtime" if idx % 2 == 0 else "length")
+            elif str(out).startswith("HARNESS-ERROR"):
+                self.harness_errors += 1
+                self.first_harness_error = self.first_harness_error or (out, show_case(case))
+            else:
+                self._judge(case, mo, rs, r)
+        # cases postponed by the circuit breaker: run them now unless the implementation really hangs
+        if postponed and self.timeouts["confirmed_non_termination"] == 0:
+            rout2 = self.runner.run([c for (_i, c, _m) in postponed])
+            for (idx, case, mo), (rs, r) in zip(postponed, rout2):
+                out = r["out"]
+                if out in ("SKIPPED", "TIMEOUT"):
+                    self.timeouts["first_stage"] += 1 if out == "TIMEOUT" else 0
+                    self.timeouts["inconclusive"] += 1
+                elif str(out).startswith("HARNESS-ERROR"):
+                    self.harness_errors += 1
+                    self.first_harness_error = self.first_harness_error or (out, show_case(case))
+                else:
+                    self._judge(case, mo, rs, r)
+        elif postponed:
+            self.ctx.notes.append("%d cases were not run after non-termination had been confirmed" % len(postponed))
         for k in (len(cases) // 7, len(cases) // 2, len(cases) - 5):
             if 0 <= k < len(cases) and len(self.samples) < 9:
                 self.samples.append({"unit": "iter", "case": show_case(cases[k]), "model": mout[k], "impl": rout[k][0]})
-        idxs = ctx.rng.sample(range(len(cases)), min(40, len(cases)))
+        idxs = self.ctx.rng.sample(range(len(cases)), min(40, len(cases)))
         self.cross += [(cases[i], mout[i]) for i in idxs
                        if sum(len(c["rows"]) for cs in cases[i]["deps"] for c in cs) <= 30]
-        self.total += len(cases) - n_skipped
-        if n_skipped:
-            ctx.notes.append("%d cases of a batch were skipped after repeated non-termination" % n_skipped)
+        self._check_stop()
 
 
 def run(ctx):
@@ -944,27 +1163,51 @@ def run(ctx):
         "in the plugin's thread (executor=None)",
         "rows carry (time, endtime|length*dt, id<dep>); both endtime encodings alternate by case index",
         "save_when enters as max over provided data types of int(save_when)",
+        "non-termination is only reported when it reproduces: %.0f s of user CPU in a worker, then twice %.0f s alone "
+        "in a fresh process; a timeout that does not reproduce is counted under coverage.timeouts and never alarms"
+        % (BASE_LIMIT, CONFIRM_FACTOR * BASE_LIMIT),
     ]
     mp = max_passes_now()
     warm_up()
-    sink = Sink(ctx, mp)
-    # corpus (minimised past disagreements) first
-    corpus_dir = os.path.join(lib.VERIF, "corpus", "C08")
-    if os.path.isdir(corpus_dir):
-        import json
-        for f in sorted(os.listdir(corpus_dir)):
-            if f.endswith(".json"):
-                sink.append(load_case(json.load(open(os.path.join(corpus_dir, f)))["input"]))
+    runner = Runner()                    # workers are forked now, while this process is small
+    max_cases = None
+    if os.environ.get("C08_MAX_CASES"):
+        max_cases = int(os.environ["C08_MAX_CASES"])
+        ctx.notes.append("C08_MAX_CASES=%d: generation is cut short (testing knob, not a registered run)" % max_cases)
+    sink = Sink(ctx, mp, runner, max_cases)
     try:
-        gen_random(ctx, sink)
-        gen_exhaustive(ctx, sink)
-        sink.flush()
-    except EnoughViolations:
-        ctx.notes.append("generation stopped early: more than 6 failing inputs recorded, or the quick-tier search "
-                         "budget after a model/implementation disagreement was used up")
+        try:
+            # corpus (minimised past disagreements) first
+            corpus_dir = os.path.join(lib.VERIF, "corpus", "C08")
+            if os.path.isdir(corpus_dir):
+                import json
+                for f in sorted(os.listdir(corpus_dir)):
+                    if f.endswith(".json"):
+                        sink.append(load_case(json.load(open(os.path.join(corpus_dir, f)))["input"]))
+            gen_random(ctx, sink)
+            gen_exhaustive(ctx, sink)
+            sink.flush()
+        except EnoughViolations as stop:
+            ctx.notes.append("generation stopped early: %s" % stop)
+    finally:
+        runner.close()
     ctx.count("iter", sink.total, len(sink.nontriv), sink.dist)
     ctx.coverage["disagreements"] = sink.n_disagree
-    ctx.notes.append("timing: " + "; ".join(getattr(sink, "timing", [])))
+    ctx.coverage["timeouts"] = sink.timeouts
+    if sink.timeout_diags:
+        ctx.notes.append("first-stage timeouts (suspicions only): " + "; ".join(str(d) for d in sink.timeout_diags))
+    ctx.coverage["inconclusive"] = sink.timeouts["inconclusive"] + sink.harness_errors
+    ctx.coverage["harness_errors"] = sink.harness_errors
+    ctx.notes.append("timing: " + "; ".join(sink.timing))
+    if sink.harness_errors:
+        ctx.notes.append("the harness could not drive the implementation on %d cases, first: %s"
+                         % (sink.harness_errors, sink.first_harness_error))
+        if sink.harness_errors > max(20, sink.total // 200):
+            ctx.violation("harness", "the harness could not drive Plugin.iter on %d of %d cases (first error: %s); "
+                          "nothing is known about the property on those" % (sink.harness_errors, sink.total +
+                                                                           sink.harness_errors, sink.first_harness_error[0]),
+                          {"input": "corr:C08/harness-errors", "case": sink.first_harness_error[1]},
+                          no_failing_input=True)
     for smp in sink.samples:
         ctx.sample(smp)
     crosscheck(ctx, sink.cross)
@@ -1060,6 +1303,9 @@ def replay(ctx, obj):
     case = r.get("case") if isinstance(r.get("input"), str) else r.get("input")
     case = load_case(case)
     rr = real_run(case)
+    if rr["out"] == "TIMEOUT":
+        verdict, r2 = confirm_timeout(case)
+        rr = r2 if verdict == "result" else {"calls": rr["calls"], "out": "RUNAWAY" if verdict == "hang" else "TIMEOUT"}
     why = predicates(case, rr, max_passes_now())
     try:
         mo = lib.run_model("C08", [enc_case(case)])[0]
